@@ -860,7 +860,7 @@ class Graph:
         root_lookup = self._build_name_to_id_lookup(G, None)
 
         # Add root-level edges with translated IDs
-        for src, tgt, data in self._nx_graph.edges(data=True):
+        for src, tgt, data in self._edges_from_every_producer():
             src_id = root_lookup.get(src, src)
             tgt_id = root_lookup.get(tgt, tgt)
             G.add_edge(src_id, tgt_id, **data)
@@ -869,6 +869,27 @@ class Graph:
         for node in self._nodes.values():
             node_id = root_lookup.get(node.name, node.name)
             self._add_nested_edges(G, node, node_id)
+
+    def _edges_from_every_producer(self) -> list[tuple[str, str, dict[str, Any]]]:
+        """Edges of this graph, with a data edge from EVERY producer of a value.
+
+        The execution graph draws a shared output name (exclusive branches,
+        ordered writers) from its first producer only; the flattened view
+        shows each producer feeding the consumers of the name.
+        """
+        edges = {(src, tgt): dict(data) for src, tgt, data in self._nx_graph.edges(data=True)}
+        if self._explicit_edges is not None:
+            return [(src, tgt, data) for (src, tgt), data in edges.items()]
+        sources = self._collect_output_sources(list(self._nodes.values()))
+        for node in self._nodes.values():
+            for param in node.inputs:
+                for source in sources.get(param, ())[1:]:
+                    data = edges.get((source, node.name))
+                    if data is None:
+                        edges[(source, node.name)] = {"edge_type": "data", "value_names": [param]}
+                    elif data.get("edge_type") == "data" and param not in data.get("value_names", []):
+                        data["value_names"] = [*data.get("value_names", []), param]
+        return [(src, tgt, data) for (src, tgt), data in edges.items()]
 
     def _add_nested_edges(self, G: nx.DiGraph, node: HyperNode, parent_id: str) -> None:
         """Recursively add edges from nested graphs.
@@ -886,7 +907,7 @@ class Graph:
         child_lookup = self._build_name_to_id_lookup(G, parent_id)
 
         # Add edges with translated IDs
-        for src, tgt, data in inner.nx_graph.edges(data=True):
+        for src, tgt, data in inner._edges_from_every_producer():
             src_id = child_lookup.get(src, src)
             tgt_id = child_lookup.get(tgt, tgt)
             G.add_edge(src_id, tgt_id, **data)
